@@ -3,7 +3,7 @@ CONSTANTS
   Sources = {1, 2}
   MAXITEMS = 2
   Prios = {1, 2, 3}
-  MAXPUSH = 2
+  MAXPUSH = 3
 CONSTRAINT Bound
 INVARIANT PInv
 CHECK_DEADLOCK FALSE
